@@ -369,7 +369,9 @@ ChClose ==
                                    ELSE [mem[t] EXCEPT !.st = "gone", !.cls = "dropped"]
                               ELSE mem[t]]
           /\ used' = EmptyFn
-  /\ UNCHANGED <<conc, push, rq, running, pend, cancelOK, hcanc, cbs, notes, waitRet, rdDone, sendBad, stopOpen>>
+  \* the stop cancels the context of every outstanding callback: it must return by the next quiescent point
+  /\ cbs' = [c \in DOMAIN cbs |-> IF cbs[c].st = "sent" THEN [cbs[c] EXCEPT !.ctxend = TRUE] ELSE cbs[c]]
+  /\ UNCHANGED <<conc, push, rq, running, pend, cancelOK, hcanc, notes, waitRet, rdDone, sendBad, stopOpen>>
 
 (***************************************************************************)
 (* CancelRequest.                                                          *)
@@ -490,7 +492,7 @@ Start ==   \* (re)start on a fresh channel: a new generation
   /\ Imp("C08", Ev.gen > 1 => waitRet)
   /\ mem' = EmptyFn /\ units' = <<>> /\ rq' = <<>> /\ used' = EmptyFn /\ running' = {}
   /\ stopped' = FALSE /\ pend' = {} /\ causes' = {} /\ cancelOK' = {} /\ hcanc' = {}
-  /\ cbs' = [c \in DOMAIN cbs |-> [cbs[c] EXCEPT !.st = "ret"]]
+  /\ UNCHANGED cbs           \* a callback outstanding across a restart is still outstanding
   /\ notes' = [open |-> 0, sent |-> 0] /\ waitRet' = FALSE /\ rdDone' = FALSE
   /\ sendBad' = FALSE /\ stopOpen' = FALSE
   /\ UNCHANGED <<conc, push>>
